@@ -114,7 +114,7 @@ theorem digitsAux_head_ne_zero {r : Nat} (hr : 2 ≤ r) (n : Nat) : (digitsAux r
           · have := Nat.div_pos h (by omega : 0 < r); omega
         simp [Nat.mod_eq_of_lt hlt, hn]
       · have hne := digitsAux_ne_nil hr hq
-        have := ih _ (Nat.div_lt_self (by omega) (by omega))
+        have := ih (n / r) (Nat.div_lt_self (Nat.pos_of_ne_zero hn) (by omega : 1 < r))
         cases h : digitsAux r (n / r) [] with
         | nil => exact absurd h hne
         | cons a t => rw [h] at this; simpa using this
